@@ -356,6 +356,11 @@ Definition exec (w : world) (c : cmd) : world * outcome :=
           let '(w1, u) := fresh_uid w in
           let '(hp, r') := deepcopy_rep (w_heap w1) r u in
           (set_var (set_heap w1 hp) x (OCx r'), OkV VUnit)
+      | Some (OFilt f) =>
+          (* copy.deepcopy of a filtration: the complex underneath and the three tables, nothing shared *)
+          let '(w1, u) := fresh_uid w in
+          let '(hp, r') := deepcopy_rep (w_heap w1) (f_rep f) u in
+          (set_var (set_heap w1 hp) x (OFilt (with_rep f r')), OkV VUnit)
       | _ => (w, Err TypeError)
       end
   | CCompose x a b =>
